@@ -6,31 +6,43 @@
 #ifndef CTX
 #define CTX 1
 #endif
+#ifndef PART
+#define PART 1
+#endif
 #if CTX == 1
-#include "C12_avx.h"
-#define SFX _avx
+#define CTXNAME avx
 #define BITS 256
 #elif CTX == 2
-#include "C12_sse.h"
-#define SFX _sse
+#define CTXNAME sse
 #define BITS 128
 #elif CTX == 3
-#include "C12_v128.h"
-#define SFX _v128
+#define CTXNAME v128
 #define BITS 128
 #elif CTX == 4
-#include "C12_v256.h"
-#define SFX _v256
+#define CTXNAME v256
 #define BITS 256
 #elif CTX == 5
-#include "C12_v512.h"
-#define SFX _v512
+#define CTXNAME v512
 #define BITS 512
 #elif CTX == 6
-#include "C12_simde.h"
-#define SFX _simde
+#define CTXNAME simde
 #define BITS 512
 #endif
+#if PART == 1
+#define PARTNAME ew
+#elif PART == 2
+#define PARTNAME outer
+#elif PART == 3
+#define PARTNAME red
+#endif
+#define XSTR_(x) #x
+#define XSTR(x) XSTR_(x)
+#define MKHDR_(c,p) XSTR(C12_##c##_##p.h)
+#define MKHDR(c,p) MKHDR_(c,p)
+#include MKHDR(CTXNAME,PARTNAME)
+#define MKSFX_(c) _##c
+#define MKSFX(c) MKSFX_(c)
+#define SFX MKSFX(CTXNAME)
 #ifndef TY
 #define TY 0
 #endif
@@ -90,6 +102,7 @@ static const int c12_ns[] = { NLIST };
 #define OP 1
 #endif
 
+#if PART == 1
 static u64 call_unary(int simd, const T* in, u64 n, T p0, T p1, T* out, u64* os, u64* od){
 #if OP == OP_relu
   return simd ? KS(relu)(in, n, out, os, od) : KR(relu)(in, n, out, os, od);
@@ -123,21 +136,30 @@ static u64 call_unary(int simd, const T* in, u64 n, T p0, T p1, T* out, u64* os,
 /* unary element-wise op over a 1-d array of each listed element count; all elements and the op parameters symbolic */
 void h_unary(void){
   T p0 = in_T(), p1 = in_T();
-#ifdef NAN_FREE_PARAMS
-  ASSUME(!isnan_T(p0) && !isnan_T(p1));
-#endif
 #if OP == OP_hardtanh
-  ASSUME(p0 <= p1);                    /* hardtanh is only meaningful for min_val <= max_val (also excludes NaN parameters) */
+  ASSUME(p0 < p1);                     /* hardtanh(min_val, max_val) is defined for min_val < max_val (PyTorch rejects anything else); excludes NaN parameters */
+#endif
+#if OP == OP_softshrink
+  ASSUME(p0 >= 0);                     /* softshrink(lambda) is defined for lambda >= 0 (PyTorch rejects negative lambda); excludes a NaN lambda */
 #endif
   for (int k = 0; k < NCOUNTS; k++){
     const int n = c12_ns[k];
     T in[MAXN], o1[MAXN], o2[MAXN]; u64 s1[2] = {0,0}, s2[2] = {0,0}, d1 = 0, d2 = 0;
     for (int i = 0; i < n; i++){ in[i] = in_T(); o1[i] = 0; o2[i] = 0;
-#ifdef NAN_FREE
+#ifdef NAN_FREE                        /* stated assumption for the max/min based ops relu6 and hardtanh: see ASSUMPTIONS */
       ASSUME(!isnan_T(in[i]));
 #endif
-#ifdef KF_C12_NEGZERO
-      ASSUME(bits_T(in[i]) != ((TB)1 << (sizeof(T)*8-1)));
+#ifdef KF_C12_SOFTSHRINK_NAN           /* finding: softshrink(NaN) is 0 in the scalar functor and NaN in every SIMD formulation */
+      ASSUME(!isnan_T(in[i]));
+#endif
+#ifdef KF_C12_RELU6_NEGZERO            /* finding: relu6(-0.0) is -0.0 in the scalar functor and +0.0 in the SIMD formulation max(min(x,6),0) */
+      ASSUME(!(bits_T(in[i]) == ((TB)1 << (sizeof(T)*8-1))));
+#endif
+#ifdef KF_C12_RELU_NEGZERO             /* finding (vector-extension contexts): relu(-0.0) is +0.0 in the scalar functor and -0.0 = fmax(-0.0, 0.0) in the SIMD path */
+      ASSUME(!(bits_T(in[i]) == ((TB)1 << (sizeof(T)*8-1))));
+#endif
+#ifdef KF_C12_HARDTANH_ZERO            /* finding: a zero input clamped against a zero bound of the other sign: the scalar functor returns the input, SIMD the bound */
+      ASSUME(!(in[i] == 0 && ((p0 == 0 && bits_T(in[i]) != bits_T(p0)) || (p1 == 0 && bits_T(in[i]) != bits_T(p1)))));
 #endif
     }
     u64 m1 = call_unary(1, in, n, p0, p1, o1, s1, &d1);
@@ -204,6 +226,9 @@ static u64 call_binary2(int simd, const u64* xs, const T* x, const u64* ys, cons
 void h_binary2(void){
   T x[LR*LC], y[RR*RC], o1[MAXC2], o2[MAXC2]; u64 xs[2] = {LR, LC}, ys[2] = {RR, RC}, s1[2] = {0,0}, s2[2] = {0,0}, d1 = 0, d2 = 0;
   const int rows = MX(LR,RR), cols = MX(LC,RC);
+#ifdef KF_C12_BCAST_11                  /* finding: an operand of shape (1,1) against (r,c), r > 1: the SIMD enumerator reads operand[row] */
+  ASSUME(!((LR*LC == 1 && RR > 1) || (RR*RC == 1 && LR > 1)));
+#endif
   for (int i = 0; i < LR*LC; i++) x[i] = in_T();
   for (int i = 0; i < RR*RC; i++) y[i] = in_T();
   for (int i = 0; i < rows*cols; i++){ o1[i] = 0; o2[i] = 0; }
@@ -214,3 +239,165 @@ void h_binary2(void){
   for (int i = 0; i < rows*cols; i++){ ASSERT(same(o1[i], o2[i]), "SIMD element is bit-identical to the scalar element"); OBSV(o1[i]); }
   REACHED();
 }
+#endif /* PART 1 */
+
+#if PART == 2
+#ifndef ON
+#define ON 3
+#define OM 9
+#endif
+static u64 call_outer(int simd, const T* x, u64 n, const T* y, u64 m, T* out, u64* os, u64* od){
+#if OP == OP_add
+  return simd ? KS(outer_add)(x, n, y, m, out, os, od) : KR(outer_add)(x, n, y, m, out, os, od);
+#elif OP == OP_subtract
+  return simd ? KS(outer_subtract)(x, n, y, m, out, os, od) : KR(outer_subtract)(x, n, y, m, out, os, od);
+#elif OP == OP_multiply
+  return simd ? KS(outer_multiply)(x, n, y, m, out, os, od) : KR(outer_multiply)(x, n, y, m, out, os, od);
+#else
+  return (u64)-9;
+#endif
+}
+/* outer op of a 1-d (ON,) with a 1-d (OM,) array: result (ON,OM); ON, OM per-query constants, all elements symbolic */
+void h_outer(void){
+  T x[ON], y[OM], o1[ON*OM], o2[ON*OM]; u64 s1[3] = {0,0,0}, s2[3] = {0,0,0}, d1 = 0, d2 = 0;
+  for (int i = 0; i < ON; i++) x[i] = in_T();
+  for (int i = 0; i < OM; i++) y[i] = in_T();
+  for (int i = 0; i < ON*OM; i++){ o1[i] = 0; o2[i] = 0; }
+  u64 m2 = call_outer(0, x, ON, y, OM, o2, s2, &d2);
+  u64 m1 = call_outer(1, x, ON, y, OM, o1, s1, &d1);
+  ASSERT(m2 == (u64)(ON*OM) && d2 == 2 && s2[0] == ON && s2[1] == OM, "scalar outer returns shape (n,m)");
+  ASSERT(m1 == m2 && d1 == d2 && s1[0] == s2[0] && s1[1] == s2[1], "SIMD result has the shape of the scalar result");
+  for (int i = 0; i < ON*OM; i++){ ASSERT(same(o1[i], o2[i]), "SIMD element is bit-identical to the scalar element"); OBSV(o1[i]); }
+  REACHED();
+}
+#ifndef OR
+#define OR 2
+#define OC 3
+#endif
+static u64 call_outer2(int simd, const u64* xs, const T* x, const T* y, u64 m, T* out, u64* os, u64* od){
+#if OP == OP_add
+  return simd ? KS(outer2_add)(xs, x, y, m, out, os, od) : KR(outer2_add)(xs, x, y, m, out, os, od);
+#elif OP == OP_subtract
+  return simd ? KS(outer2_subtract)(xs, x, y, m, out, os, od) : KR(outer2_subtract)(xs, x, y, m, out, os, od);
+#elif OP == OP_multiply
+  return simd ? KS(outer2_multiply)(xs, x, y, m, out, os, od) : KR(outer2_multiply)(xs, x, y, m, out, os, od);
+#else
+  return (u64)-9;
+#endif
+}
+/* outer op of a 2-d (OR,OC) with a 1-d (OM,) array: result (OR,OC,OM) */
+void h_outer2(void){
+  T x[OR*OC], y[OM], o1[OR*OC*OM], o2[OR*OC*OM]; u64 xs[2] = {OR, OC}, s1[3] = {0,0,0}, s2[3] = {0,0,0}, d1 = 0, d2 = 0;
+  for (int i = 0; i < OR*OC; i++) x[i] = in_T();
+  for (int i = 0; i < OM; i++) y[i] = in_T();
+  for (int i = 0; i < OR*OC*OM; i++){ o1[i] = 0; o2[i] = 0; }
+  u64 m2 = call_outer2(0, xs, x, y, OM, o2, s2, &d2);
+  u64 m1 = call_outer2(1, xs, x, y, OM, o1, s1, &d1);
+  ASSERT(m2 == (u64)(OR*OC*OM) && d2 == 3 && s2[0] == OR && s2[1] == OC && s2[2] == OM, "scalar outer returns shape (r,c,m)");
+  ASSERT(m1 == m2 && d1 == d2 && s1[0] == s2[0] && s1[1] == s2[1] && s1[2] == s2[2], "SIMD result has the shape of the scalar result");
+  for (int i = 0; i < OR*OC*OM; i++){ ASSERT(same(o1[i], o2[i]), "SIMD element is bit-identical to the scalar element"); OBSV(o1[i]); }
+  REACHED();
+}
+#endif /* PART 2 */
+
+#if PART == 3
+/* Reductions. Floats are not associative and the SIMD evaluator re-associates (lane-wise partial results), so the inputs are restricted to
+ * small integer-valued floats (0..VMAX): every partial sum/product is an integer below 2^24 (2^53) and therefore exact in any association
+ * order; under that stated restriction the SIMD result must be bit-identical to the scalar result. */
+#ifndef VMAX
+#define VMAX 15
+#endif
+#ifndef S0
+#define S0 3
+#define S1 9
+#endif
+#ifndef S2
+#define S2 1
+#endif
+#ifndef KD
+#define KD 1
+#endif
+static T in_small(void){ return (T)in_u8(0, VMAX); }
+#if RK == 2
+static u64 call_reduce2(int simd, const u64* xs, const T* x, u32 axis, T* out, u64* os, u64* od){
+#if OP == OP_add && KD
+  return simd ? KS(reduce2_add_kd)(xs, x, axis, out, os, od) : KR(reduce2_add_kd)(xs, x, axis, out, os, od);
+#elif OP == OP_add
+  return simd ? KS(reduce2_add_nk)(xs, x, axis, out, os, od) : KR(reduce2_add_nk)(xs, x, axis, out, os, od);
+#elif OP == OP_multiply && KD && TY == 0
+  return simd ? KS(reduce2_multiply_kd)(xs, x, axis, out, os, od) : KR(reduce2_multiply_kd)(xs, x, axis, out, os, od);
+#elif OP == OP_multiply && TY == 0
+  return simd ? KS(reduce2_multiply_nk)(xs, x, axis, out, os, od) : KR(reduce2_multiply_nk)(xs, x, axis, out, os, od);
+#else
+  return (u64)-9;
+#endif
+}
+/* reduction of a 2-d (S0,S1) array over AXIS (per-query constant, may be negative) with keepdims KD */
+void h_reduce2(void){
+  T x[S0*S1], o1[S0*S1], o2[S0*S1]; u64 xs[2] = {S0, S1}, s1[2] = {0,0}, s2[2] = {0,0}, d1 = 0, d2 = 0, ex[2];
+  const int ax = (AXIS) < 0 ? (AXIS) + 2 : (AXIS);
+  for (int i = 0; i < S0*S1; i++){ x[i] = in_small(); o1[i] = 0; o2[i] = 0; }
+  int nd = 0; u64 numel = 1;
+  for (int i = 0; i < 2; i++){ if (i == ax){ if (KD) ex[nd++] = 1; } else { ex[nd++] = xs[i]; numel *= xs[i]; } }
+  u64 m2 = call_reduce2(0, xs, x, (u32)(AXIS), o2, s2, &d2);
+  u64 m1 = call_reduce2(1, xs, x, (u32)(AXIS), o1, s1, &d1);
+  ASSERT(m2 == numel && d2 == (u64)nd, "scalar reduction returns NumPy's shape");
+  for (int i = 0; i < 2; i++) if (i < nd) ASSERT(s2[i] == ex[i], "scalar reduction returns NumPy's shape (extent)");
+  ASSERT(m1 == m2 && d1 == d2 && s1[0] == s2[0] && s1[1] == s2[1], "SIMD result has the shape of the scalar result");
+  for (int i = 0; i < S0*S1; i++) if ((u64)i < numel){ ASSERT(same(o1[i], o2[i]), "SIMD reduction element equals the scalar one (exact-integer inputs)"); OBSV(o1[i]); }
+  REACHED();
+}
+#elif RK == 3
+static u64 call_reduce3(int simd, const u64* xs, const T* x, u32 axis, T* out, u64* os, u64* od){
+#if OP == OP_add && KD
+  return simd ? KS(reduce3_add_kd)(xs, x, axis, out, os, od) : KR(reduce3_add_kd)(xs, x, axis, out, os, od);
+#elif OP == OP_add
+  return simd ? KS(reduce3_add_nk)(xs, x, axis, out, os, od) : KR(reduce3_add_nk)(xs, x, axis, out, os, od);
+#elif OP == OP_multiply && KD && TY == 0
+  return simd ? KS(reduce3_multiply_kd)(xs, x, axis, out, os, od) : KR(reduce3_multiply_kd)(xs, x, axis, out, os, od);
+#elif OP == OP_multiply && TY == 0
+  return simd ? KS(reduce3_multiply_nk)(xs, x, axis, out, os, od) : KR(reduce3_multiply_nk)(xs, x, axis, out, os, od);
+#else
+  return (u64)-9;
+#endif
+}
+/* reduction of a 3-d (S0,S1,S2) array over AXIS with keepdims KD */
+void h_reduce3(void){
+  T x[S0*S1*S2], o1[S0*S1*S2], o2[S0*S1*S2]; u64 xs[3] = {S0, S1, S2}, s1[3] = {0,0,0}, s2[3] = {0,0,0}, d1 = 0, d2 = 0, ex[3];
+  const int ax = (AXIS) < 0 ? (AXIS) + 3 : (AXIS);
+  for (int i = 0; i < S0*S1*S2; i++){ x[i] = in_small(); o1[i] = 0; o2[i] = 0; }
+  int nd = 0; u64 numel = 1;
+  for (int i = 0; i < 3; i++){ if (i == ax){ if (KD) ex[nd++] = 1; } else { ex[nd++] = xs[i]; numel *= xs[i]; } }
+  u64 m2 = call_reduce3(0, xs, x, (u32)(AXIS), o2, s2, &d2);
+  u64 m1 = call_reduce3(1, xs, x, (u32)(AXIS), o1, s1, &d1);
+  ASSERT(m2 == numel && d2 == (u64)nd, "scalar reduction returns NumPy's shape");
+  for (int i = 0; i < 3; i++) if (i < nd) ASSERT(s2[i] == ex[i], "scalar reduction returns NumPy's shape (extent)");
+  ASSERT(m1 == m2 && d1 == d2 && s1[0] == s2[0] && s1[1] == s2[1] && s1[2] == s2[2], "SIMD result has the shape of the scalar result");
+  for (int i = 0; i < S0*S1*S2; i++) if ((u64)i < numel){ ASSERT(same(o1[i], o2[i]), "SIMD reduction element equals the scalar one (exact-integer inputs)"); OBSV(o1[i]); }
+  REACHED();
+}
+#else
+/* axis = None over a 2-d (S0,S1) array: keepdims KD=1 -> shape (1,1); KD=0 -> scalar */
+void h_reduceall(void){
+  T x[S0*S1], o1[2] = {0,0}, o2[2] = {0,0}; u64 xs[2] = {S0, S1}, s1[2] = {0,0}, s2[2] = {0,0}, d1 = 0, d2 = 0;
+  for (int i = 0; i < S0*S1; i++) x[i] = in_small();
+#if OP == OP_add && KD
+  u64 m2 = KR(reduceall_add_kd)(xs, x, o2, s2, &d2), m1 = KS(reduceall_add_kd)(xs, x, o1, s1, &d1);
+#elif OP == OP_add
+  u64 m2 = KR(reduceall_add_nk)(xs, x, o2), m1 = KS(reduceall_add_nk)(xs, x, o1);
+#elif OP == OP_multiply && KD
+  u64 m2 = KR(reduceall_multiply_kd)(xs, x, o2, s2, &d2), m1 = KS(reduceall_multiply_kd)(xs, x, o1, s1, &d1);
+#else
+  u64 m2 = KR(reduceall_multiply_nk)(xs, x, o2), m1 = KS(reduceall_multiply_nk)(xs, x, o1);
+#endif
+#if KD
+  ASSERT(m2 == 1 && d2 == 2 && s2[0] == 1 && s2[1] == 1, "scalar reduction with axis=None, keepdims returns shape (1,1)");
+#else
+  ASSERT(m2 == 1, "scalar reduction with axis=None returns a number");
+#endif
+  ASSERT(m1 == m2 && d1 == d2 && s1[0] == s2[0] && s1[1] == s2[1], "SIMD result has the shape of the scalar result");
+  ASSERT(same(o1[0], o2[0]), "SIMD full reduction equals the scalar one (exact-integer inputs)"); OBSV(o1[0]);
+  REACHED();
+}
+#endif
+#endif /* PART 3 */
